@@ -309,3 +309,35 @@ def type_tests(test, subject):
                 return None
             names.add(ast.unparse(x).split('.')[-1])
     return names, neg
+
+
+# ------------------------------------------------------------- regions -------
+
+def new_helpers(ctx, f, depth=3, _seen=None):
+    """package functions reachable from f through calls that are NOT part of
+    the pinned tree (helpers a later change extracted), transitively"""
+    from . import normalise
+    base = normalise.load_baseline()['functions']
+    _seen = _seen if _seen is not None else {f.qual}
+    out = []
+    if depth <= 0:
+        return out
+    for (_call, t) in callees(ctx.model, f, list(f.node.body)):
+        if t.qual in _seen or t.qual in base:
+            continue
+        _seen.add(t.qual)
+        out.append(t)
+        out.extend(new_helpers(ctx, t, depth - 1, _seen))
+    return out
+
+
+def region(ctx, f):
+    """f together with the helpers that were extracted from it"""
+    return [f] + new_helpers(ctx, f)
+
+
+def region_nodes(ctx, f):
+    """(function, node) for every node of the region of f"""
+    for g in region(ctx, f):
+        for n in walk_own(g.node):
+            yield g, n
